@@ -379,7 +379,7 @@ class TrackerRemove(Obligation):
                 out.append(Claim('returned in argument order [%d]' % k, z3.Implies(hits[k], z3.And(ack == ids[k], tok == exp_tok))))
             else:
                 out.append(Claim('no hit when nothing returned [%d]' % k, z3.Not(hits[k])))
-        out.append(Cover('returns %d' % ret.cn()))
+        out += returns_covers(ret)
         return out
 
     def model_info(self, p, m, res):
@@ -473,7 +473,7 @@ class TrackerModify(Obligation):
                                  z3.Implies(h, pm_parts(ctx, e)[0] == tok)))
             else:
                 out.append(Claim('no nack hit when nothing returned [%d]' % k, z3.Not(h)))
-        out.append(Cover('returns %d' % ret.cn()))
+        out += returns_covers(ret)
         if self.n >= 1 and self.k >= 2:
             out.append(Cover('extend then nack the same id', z3.And(n >= 2, ds[0].used, ids[0] == ds[0].ack, ids[1] == ds[0].ack,
                                                                   kinds[0][0], z3.Not(kinds[1][0]))))
